@@ -406,6 +406,22 @@ def negate(c):
         n = dict(s)
         n["b"] = not s.get("b")
         return [n]
+    if s.get("k") == "Bin" and s.get("op") == "&&":
+        # one literal in negation normal form: !(a && b) is the disjunction !a || !b (the same node a written `!a || !b` gives)
+        def dis(parts):
+            out = parts[0]
+            for p2 in parts[1:]:
+                out = {"k": "Bin", "op": "||", "l": out, "r": p2, "t": "bool", "sz": 1, "loc": s.get("loc"), "synth": True}
+            return out
+
+        def conj(parts):
+            out = parts[0]
+            for p2 in parts[1:]:
+                out = {"k": "Bin", "op": "&&", "l": out, "r": p2, "t": "bool", "sz": 1, "loc": s.get("loc"), "synth": True}
+            return out
+        nl, nr = negate(s["l"]), negate(s["r"])
+        if nl and nr:
+            return [dis([conj(nl), conj(nr)])]
     return [{"k": "Un", "op": "!", "e": s, "loc": s.get("loc"), "t": "bool", "sz": 1}]
 
 
